@@ -561,7 +561,23 @@ def _judge_tick(ref, i, exp, est, dg, stale, bad):
             # missing, and several bursts for the same (recipient, fn, tn) may be in flight
             same = [c for c in cand if (parse_rx(bursts[c][3]) or {}).get("soft") == e["soft"]]
             if same:
-                n = same[0]
+                # two senders may put identical bits on the air for the same (recipient, fn, tn) - e.g. two all-zero bursts:
+                # the datagrams are then told apart by their metadata only, so take the one inside this expectation's windows
+                def fits(c):
+                    mm = parse_rx(bursts[c][3]) or {}
+                    try:
+                        return (mm.get("ver") == e["ver"] and not mm.get("nope") and e["rssi"][0] <= mm["rssi"] <= e["rssi"][1]
+                                and e["toa"][0] <= mm["toa"] <= e["toa"][1]
+                                and (e["ver"] == 0 or e["ci"][0] <= mm["ci"] <= e["ci"][1]))
+                    except (KeyError, TypeError):
+                        return False
+                good = [c for c in same if fits(c)]
+                if not good and e.get("optional") and len(cand) <= sum(1 for e2 in exb if (e2["lport"], e2["fn"], e2["tn"]) == (e["lport"], e["fn"], e["tn"])) - 1:
+                    # an optional expectation (its window straddles a protocol bound, so the real code may legitimately have sent
+                    # nothing) must not take the datagram of ANOTHER sender with identical bits: fewer datagrams than
+                    # expectations for this (recipient, fn, tn) and none inside this window = this one was not sent
+                    continue
+                n = good[0] if good else same[0]
             elif e.get("optional"):
                 continue
         used[n] = True
